@@ -38,7 +38,17 @@ MODEL_FIX = {"fixed": "all"}.get(os.environ.get("C13_MODEL", "all"), os.environ.
 #           in front of the loop (constant trip count = ceil((ub-lb)/step), 0 if empty)
 #   buffers are named by strings: "b0".. (function arguments), "m0".. (allocs), "v0".. (subviews)
 # classes the generator expects from dispatching_rules.py:
-DART_CLS = {"snax_alu": "cp", "snax_xdma": "dm", "snax_xdma_mul": "all"}
+def _dc14a_fixed():
+    """an xDMA region whose kernel no extension provides is compute work since the repair of DC14a (C14); 'all' before"""
+    import json, os
+    f = os.path.join(os.path.dirname(os.path.dirname(os.path.dirname(os.path.abspath(__file__)))), "known_findings.d", "C14.json")
+    try:
+        return any(e["id"] == "DC14a" and e.get("status") == "fixed" for e in json.load(open(f))["findings"])
+    except Exception:
+        return False
+
+
+DART_CLS = {"snax_alu": "cp", "snax_xdma": "dm", "snax_xdma_mul": "cp" if _dc14a_fixed() else "all"}
 
 
 def render(case):
